@@ -1240,9 +1240,11 @@ theorem instancesFrom_seed (θ₀ : Mu) (G : Graph) (ps : List TP) :
 
 def exprVars : Expr → List Str
   | .var x | .bound x => [x]
-  | .or a b | .and a b | .eq a b | .sameTerm a b | .lt a b => exprVars a ++ exprVars b
-  | .not a | .call _ a => exprVars a
-  | .const _ => []
+  | .or a b | .and a b | .eq a b | .sameTerm a b | .lt a b | .cmp _ a b | .arith _ a b | .coalesce a b =>
+    exprVars a ++ exprVars b
+  | .not a | .call _ a | .neg a | .pos a => exprVars a
+  | .ite a b c | .inl a b c => exprVars a ++ exprVars b ++ exprVars c
+  | .const _ | .err => []
 
 theorem evalExpr_congr (μ μ' : Mu) (e : Expr) (h : ∀ y ∈ exprVars e, μ.get (.var y) = μ'.get (.var y)) :
     SparqlSpec.evalExpr μ e = SparqlSpec.evalExpr μ' e := by
@@ -1271,6 +1273,30 @@ theorem evalExpr_congr (μ μ' : Mu) (e : Expr) (h : ∀ y ∈ exprVars e, μ.ge
   | call f a iha =>
     simp only [SparqlSpec.evalExpr]
     rw [iha (fun y hy => h y (by simp [exprVars, hy]))]
+  | cmp op a b iha ihb =>
+    simp only [SparqlSpec.evalExpr]
+    rw [iha (fun y hy => h y (by simp [exprVars, hy])), ihb (fun y hy => h y (by simp [exprVars, hy]))]
+  | arith op a b iha ihb =>
+    simp only [SparqlSpec.evalExpr]
+    rw [iha (fun y hy => h y (by simp [exprVars, hy])), ihb (fun y hy => h y (by simp [exprVars, hy]))]
+  | coalesce a b iha ihb =>
+    simp only [SparqlSpec.evalExpr]
+    rw [iha (fun y hy => h y (by simp [exprVars, hy])), ihb (fun y hy => h y (by simp [exprVars, hy]))]
+  | neg a iha =>
+    simp only [SparqlSpec.evalExpr]
+    rw [iha (fun y hy => h y (by simp [exprVars, hy]))]
+  | pos a iha =>
+    simp only [SparqlSpec.evalExpr]
+    rw [iha (fun y hy => h y (by simp [exprVars, hy]))]
+  | ite a b c iha ihb ihc =>
+    simp only [SparqlSpec.evalExpr]
+    rw [iha (fun y hy => h y (by simp [exprVars, hy])), ihb (fun y hy => h y (by simp [exprVars, hy])),
+      ihc (fun y hy => h y (by simp [exprVars, hy]))]
+  | inl a b c iha ihb ihc =>
+    simp only [SparqlSpec.evalExpr]
+    rw [iha (fun y hy => h y (by simp [exprVars, hy])), ihb (fun y hy => h y (by simp [exprVars, hy])),
+      ihc (fun y hy => h y (by simp [exprVars, hy]))]
+  | err => rfl
 
 theorem holds_congr (μ μ' : Mu) (e : Expr) (h : ∀ y ∈ exprVars e, μ.get (.var y) = μ'.get (.var y)) :
     holds e μ = holds e μ' := by
@@ -1783,7 +1809,7 @@ theorem eval_distinct_ok {p : GP} {G Ω} (h : eval D p G = .ok Ω) :
 theorem eval_distinct_err {p : GP} {G er} (h : eval D p G = .error er) :
     eval D (.distinct p) G = .error er := by simp only [eval, h]; rfl
 theorem select_slice_ok {p : GP} {gm b r} (s : Nat) (n : Option Nat) (h : select D p gm b = .ok r) :
-    select D (.slice p s n) gm b = .ok { r with rows := sliceList r.rows s n } := by simp only [select, h]; rfl
+    select D (.slice p s n) gm b = .ok { r with rows := sliceRows r.rows s n } := by simp only [select, h]; rfl
 theorem select_slice_err {p : GP} {gm b er} (s : Nat) (n : Option Nat) (h : select D p gm b = .error er) :
     select D (.slice p s n) gm b = .error er := by simp only [select, h]; rfl
 theorem eval_slice_ok {p : GP} {G Ω} (s : Nat) (n : Option Nat) (h : eval D p G = .ok Ω) :
@@ -1895,6 +1921,24 @@ theorem select_no_panic (D : List Quad) : ∀ (p : GP) (gm : List (Option Term))
     cases h : select D p gm b with
     | error er => rw [select_filter_err e h]; intro hc; cases hc; exact ih gm b h
     | ok r => rw [select_filter_ok e h]; simp
+  | filterExists neg pat p ihpat ih =>
+    intro gm b
+    simp only [select]
+    cases h : select D p gm b with
+    | error er =>
+      simp only [bind, Except.bind, pure, Except.pure]
+      split
+      · split
+        · rename_i err hp; intro hc; cases hc; exact ihpat [] none hp
+        · intro hc; cases hc; exact ih gm b h
+      · intro hc; cases hc; exact ih gm b h
+    | ok r =>
+      simp only [bind, Except.bind, pure, Except.pure]
+      split
+      · split
+        · rename_i err hp; intro hc; cases hc; exact ihpat [] none hp
+        · simp
+      · simp
   | union l r ihl ihr =>
     intro gm b
     cases h1 : select D l gm b with
@@ -2034,7 +2078,10 @@ theorem termLevel_eval {e : Expr} (he : TermLevel e) {b : Binding} {μ : Mu} (h 
   | isLiteral ha =>
     obtain ⟨oa, a1, a2⟩ := atom_eval ha h
     refine ⟨oa.map isLiteral, ?_, ?_⟩
-    · simp only [Sparql.evalExpr, a1]; cases oa <;> simp [callFunction, termIsLiteral]
+    · simp only [Sparql.evalExpr, a1]
+      cases oa with
+      | none => simp
+      | some t => cases t <;> simp [callFunction, termIsLiteral, isLiteral]
     · simp only [SparqlSpec.evalExpr, a2]; cases oa <;> simp [callFunc]
   | not _ ih =>
     obtain ⟨o, i1, i2⟩ := ih
@@ -2087,6 +2134,7 @@ theorem evalExprD_none (μ : Mu) (e : Expr) : evalExprD {} μ e = SparqlSpec.eva
   | const t => rfl
   | var x => rfl
   | bound x => rfl
+  | err => rfl
   | or a b iha ihb => simp [evalExprD, SparqlSpec.evalExpr, iha, ihb, ebvD_none']
   | and a b iha ihb => simp [evalExprD, SparqlSpec.evalExpr, iha, ihb, ebvD_none']
   | eq a b iha ihb => simp [evalExprD, SparqlSpec.evalExpr, iha, ihb]
@@ -2094,6 +2142,13 @@ theorem evalExprD_none (μ : Mu) (e : Expr) : evalExprD {} μ e = SparqlSpec.eva
   | lt a b iha ihb => simp [evalExprD, SparqlSpec.evalExpr, iha, ihb]
   | not a iha => simp [evalExprD, SparqlSpec.evalExpr, iha, ebvD_none]
   | call f a iha => simp [evalExprD, SparqlSpec.evalExpr, iha]
+  | cmp op a b iha ihb => simp [evalExprD, SparqlSpec.evalExpr, iha, ihb]
+  | arith op a b iha ihb => simp [evalExprD, SparqlSpec.evalExpr, iha, ihb]
+  | neg a iha => simp [evalExprD, SparqlSpec.evalExpr, iha]
+  | pos a iha => simp [evalExprD, SparqlSpec.evalExpr, iha]
+  | coalesce a b iha ihb => simp [evalExprD, SparqlSpec.evalExpr, iha, ihb]
+  | ite a b c iha ihb ihc => simp [evalExprD, SparqlSpec.evalExpr, iha, ihb, ihc, ebvD_none]
+  | inl a b c iha ihb ihc => simp [evalExprD, SparqlSpec.evalExpr, iha, ihb, ihc, ebvD_none']
 
 theorem holdsD_none (e : Expr) : holdsD {} e = holds e := by
   funext μ
@@ -2104,6 +2159,7 @@ theorem varsD_none (p : GP) : varsD {} p [] = inScope p := by
   | bgp ps => simp [varsD, inScope]
   | graph name p ih => cases name <;> simp [varsD, inScope, ih]
   | filter e p ih => simp [varsD, inScope, ih]
+  | filterExists neg pat p _ ih => simp [varsD, inScope, ih]
   | union l r ihl ihr => simp [varsD, inScope, ihl, ihr]
   | extend p x e ih => simp [varsD, inScope, ih]
   | orderBy p ih => simp [varsD, inScope, ih]
@@ -2112,43 +2168,199 @@ theorem varsD_none (p : GP) : varsD {} p [] = inScope p := by
   | slice p s n ih => simp [varsD, inScope, ih]
   | _ => simp [varsD, inScope]
 
-theorem evalD_none (D : List Quad) (p : GP) : ∀ G, evalD {} D p G [] = eval D p G := by
+theorem existsKeepD_none (neg : Bool) (r : Except SparqlSpec.Err (List Mu)) :
+    existsKeepD {} neg r = r.map (fun r => (!r.isEmpty) != neg) := by
+  cases r <;> rfl
+
+/-- inside EXISTS: the attribution evaluator under a seed is the substitution semantics -/
+theorem evalD_under_none (D : List Quad) (p : GP) : existsFragment p = true →
+    ∀ G μ, evalD {} D p G μ = evalUnder D p G μ := by
   induction p with
-  | bgp ps => intro G; simp [evalD, eval, specBgp]
-  | filter e p ih => intro G; simp [evalD, eval, ih, holdsD_none]
-  | union l r ihl ihr => intro G; simp [evalD, eval, ihl, ihr]
-  | extend p x e ih =>
-    intro G
-    simp only [evalD, eval, ih, seedVars, List.filterMap_nil, varsD_none, evalExprD_none]
-    rfl
-  | orderBy p ih => intro G; simp [evalD, eval, ih]
-  | project p xs ih => intro G; simp [evalD, eval, ih]
-  | distinct p ih => intro G; simp [evalD, eval, ih]
-  | slice p s n ih => intro G; simp [evalD, eval, ih]
+  | bgp ps => intro _ G μ; simp [evalD, evalUnder]
+  | filter e p ih =>
+    intro h G μ
+    simp only [existsFragment] at h
+    simp [evalD, evalUnder, ih h, holdsD_none]
+  | union l r ihl ihr =>
+    intro h G μ
+    simp only [existsFragment, Bool.and_eq_true] at h
+    simp [evalD, evalUnder, ihl h.1, ihr h.2]
+  | filterExists neg pat p ihpat ih =>
+    intro h G μ
+    simp only [existsFragment, Bool.and_eq_true] at h
+    simp only [evalD, evalUnder, ih h.2, ihpat h.1 G, existsKeepD_none]
   | graph name p ih =>
-    intro G
+    intro h G μ
+    simp only [existsFragment] at h
     cases name with
-    | iri n => simp [evalD, eval, ih]
+    | iri n => simp [evalD, evalUnder, ih h]
     | var x =>
-      simp only [evalD, eval, Bool.false_eq_true, if_false, Bool.false_and, ih]
+      simp only [evalD, evalUnder, Bool.false_eq_true, if_false, Bool.false_and, ih h]
+      cases Mu.get μ (Key.var x) with
+      | some n => rfl
+      | none =>
+        simp only []
+        congr 1
+        funext n acc
+        cases evalUnder D p (namedGraph D n) μ <;> rfl
+  | _ => intro h; simp [existsFragment] at h
+
+theorem evalD_none (D : List Quad) (p : GP) : inFragment p = true → ∀ G, evalD {} D p G [] = eval D p G := by
+  induction p with
+  | bgp ps => intro _ G; simp [evalD, eval, specBgp]
+  | filter e p ih => intro h G; simp only [inFragment] at h; simp [evalD, eval, ih h, holdsD_none]
+  | filterExists neg pat p _ ih =>
+    intro h G
+    simp only [inFragment, Bool.and_eq_true] at h
+    simp only [evalD, eval, ih h.2, evalD_under_none D pat h.1 G, existsKeepD_none]
+  | union l r ihl ihr =>
+    intro h G
+    simp only [inFragment, Bool.and_eq_true] at h
+    simp [evalD, eval, ihl h.1, ihr h.2]
+  | extend p x e ih =>
+    intro h G
+    simp only [inFragment] at h
+    simp only [evalD, eval, ih h, seedVars, List.filterMap_nil, varsD_none, evalExprD_none]
+    rfl
+  | orderBy p ih => intro h G; simp only [inFragment] at h; simp [evalD, eval, ih h]
+  | project p xs ih => intro h G; simp only [inFragment] at h; simp [evalD, eval, ih h]
+  | distinct p ih => intro h G; simp only [inFragment] at h; simp [evalD, eval, ih h]
+  | slice p s n ih => intro h G; simp only [inFragment] at h; simp [evalD, eval, ih h]
+  | graph name p ih =>
+    intro h G
+    simp only [inFragment] at h
+    cases name with
+    | iri n => simp [evalD, eval, ih h]
+    | var x =>
+      simp only [evalD, eval, Bool.false_eq_true, if_false, Bool.false_and, ih h, Mu.get, List.lookup_nil]
       congr 1
       funext n acc
       cases eval D p (namedGraph D n) <;> rfl
-  | _ => intro G; simp [evalD, eval]
+  | _ => intro h; simp [inFragment] at h
 
 /-- with no deviation switched on, the attribution evaluator *is* the specification -/
 theorem evalQueryD_none (D : List Quad) (q : Query) : evalQueryD {} D q = evalQuery D q := by
+  have key : ∀ (p : GP), fragD {} p = inFragment p := fun _ => rfl
   cases q with
   | select ds p =>
     cases ds with
-    | none => simp only [evalQueryD, evalQuery, evalD_none, varsD_none]; rfl
-    | some _ => rfl
+    | none =>
+      simp only [evalQueryD, evalQuery, key]
+      cases hf : inFragment p with
+      | false => rfl
+      | true => simp only [if_true, evalD_none D p hf, varsD_none]; rfl
+    | some qd =>
+      obtain ⟨froms, named⟩ := qd
+      cases named with
+      | some _ => rfl
+      | none =>
+        simp only [evalQueryD, evalQuery, key]
+        cases hf : inFragment p with
+        | false => rfl
+        | true => simp only [if_true, evalD_none _ p hf, varsD_none]; rfl
   | ask ds p =>
     cases ds with
-    | none => simp only [evalQueryD, evalQuery, evalD_none]; rfl
-    | some _ => rfl
+    | none =>
+      simp only [evalQueryD, evalQuery, key]
+      cases hf : inFragment p with
+      | false => rfl
+      | true => simp only [if_true, evalD_none D p hf]; rfl
+    | some qd =>
+      obtain ⟨froms, named⟩ := qd
+      cases named with
+      | some _ => rfl
+      | none =>
+        simp only [evalQueryD, evalQuery, key]
+        cases hf : inFragment p with
+        | false => rfl
+        | true => simp only [if_true, evalD_none _ p hf]; rfl
   | construct => rfl
   | describe => rfl
+
+/-- **a refused operator anywhere outside an EXISTS pattern makes the whole pattern fail**: the
+evaluator returns an error, never rows — whatever the dataset, graph matcher and binding -/
+theorem refused_never_answers (D : List Quad) : ∀ (p : GP), inFragmentSw p = false →
+    ∀ gm b, ∃ e, select D p gm b = .error e := by
+  intro p
+  induction p with
+  | bgp ps => intro h; simp [inFragmentSw] at h
+  | path => intro _ gm b; exact ⟨_, by simp only [select]; rfl⟩
+  | values => intro _ gm b; exact ⟨_, by simp only [select]; rfl⟩
+  | join l r _ _ => intro _ gm b; exact ⟨_, by simp only [select]; rfl⟩
+  | leftJoin l r _ _ => intro _ gm b; exact ⟨_, by simp only [select]; rfl⟩
+  | minus l r _ _ => intro _ gm b; exact ⟨_, by simp only [select]; rfl⟩
+  | reduced p _ => intro _ gm b; exact ⟨_, by simp only [select]; rfl⟩
+  | group p _ => intro _ gm b; exact ⟨_, by simp only [select]; rfl⟩
+  | service p _ => intro _ gm b; exact ⟨_, by simp only [select]; rfl⟩
+  | filter e p ih =>
+    intro h gm b
+    obtain ⟨er, he⟩ := ih (by simpa [inFragmentSw] using h) gm b
+    exact ⟨er, select_filter_err e he⟩
+  | filterExists neg pat p _ ih =>
+    intro h gm b
+    obtain ⟨er, he⟩ := ih (by simpa [inFragmentSw] using h) gm b
+    simp only [select, he, bind, Except.bind, pure, Except.pure]
+    split
+    · split
+      · exact ⟨_, rfl⟩
+      · exact ⟨_, rfl⟩
+    · exact ⟨_, rfl⟩
+  | union l r ihl ihr =>
+    intro h gm b
+    simp only [inFragmentSw, Bool.and_eq_false_iff] at h
+    cases hl : select D l gm b with
+    | error er => exact ⟨er, select_union_err1 hl⟩
+    | ok a =>
+      rcases h with h | h
+      · obtain ⟨er, he⟩ := ihl h gm b; rw [hl] at he; cases he
+      · obtain ⟨er, he⟩ := ihr h gm b; exact ⟨er, select_union_err2 hl he⟩
+  | extend p x e ih =>
+    intro h gm b
+    obtain ⟨er, he⟩ := ih (by simpa [inFragmentSw] using h) gm b
+    exact ⟨er, select_extend_err x e he⟩
+  | orderBy p ih =>
+    intro h gm b
+    obtain ⟨er, he⟩ := ih (by simpa [inFragmentSw] using h) gm b
+    exact ⟨er, select_orderBy.trans he⟩
+  | project p xs ih =>
+    intro h gm b
+    obtain ⟨er, he⟩ := ih (by simpa [inFragmentSw] using h) gm b
+    exact ⟨er, select_project_err xs he⟩
+  | distinct p ih =>
+    intro h gm b
+    obtain ⟨er, he⟩ := ih (by simpa [inFragmentSw] using h) gm b
+    exact ⟨er, select_distinct_err he⟩
+  | slice p s n ih =>
+    intro h gm b
+    obtain ⟨er, he⟩ := ih (by simpa [inFragmentSw] using h) gm b
+    exact ⟨er, select_slice_err s n he⟩
+  | graph name p ih =>
+    intro h gm b
+    have h' : inFragmentSw p = false := by simpa [inFragmentSw] using h
+    cases name with
+    | iri n => simp only [select]; exact ih h' _ _
+    | var x =>
+      simp only [select]
+      split
+      · exact ih h' _ _
+      · obtain ⟨er, he⟩ := ih h' [] b
+        exact ⟨er, by simp [he, bind, Except.bind]⟩
+
+theorem inFragment_sw (p : GP) : inFragment p = true → inFragmentSw p = true := by
+  induction p with
+  | bgp ps => intro _; rfl
+  | filter e p ih => intro h; simp only [inFragment] at h; simpa [inFragmentSw] using ih h
+  | filterExists neg pat p _ ih =>
+    intro h; simp only [inFragment, Bool.and_eq_true] at h; simpa [inFragmentSw] using ih h.2
+  | union l r ihl ihr =>
+    intro h; simp only [inFragment, Bool.and_eq_true] at h; simp [inFragmentSw, ihl h.1, ihr h.2]
+  | graph n p ih => intro h; simp only [inFragment] at h; simpa [inFragmentSw] using ih h
+  | extend p x e ih => intro h; simp only [inFragment] at h; simpa [inFragmentSw] using ih h
+  | orderBy p ih => intro h; simp only [inFragment] at h; simpa [inFragmentSw] using ih h
+  | project p xs ih => intro h; simp only [inFragment] at h; simpa [inFragmentSw] using ih h
+  | distinct p ih => intro h; simp only [inFragment] at h; simpa [inFragmentSw] using ih h
+  | slice p s n ih => intro h; simp only [inFragment] at h; simpa [inFragmentSw] using ih h
+  | _ => intro h; simp [inFragment] at h
 
 end dev
 
